@@ -15,7 +15,7 @@
    session-type checks, no gateways/peers, lower-case names; service_kind.* and the un-peered
    duplicates of the catalog index rows are omitted (no modelled query reads them).
    std++ style.  No proofs in this file. *)
-From stdpp Require Import gmap strings.
+From stdpp Require Import gmap strings sorting.
 From RecordUpdate Require Import RecordSet.
 From Coq Require Import NArith.
 Import RecordSetNotations.
@@ -423,13 +423,22 @@ Definition delete_service (i : N) (n sid : string) (s : st) : steps :=
         (fun _ => [PSvcDel n sid]) s
   end.
 
+(* deleteNodeTxn walks the node's services through the memdb node index, i.e. in the byte order of
+   the service ids.  The order is observable: deleting the checks of a later service may bump (and
+   re-create) the index row of a name an earlier service has just made extinct, when a check still
+   carries that name from before a rename. *)
+Definition svc_id_le (a b : string * string * svc) : Prop := String.leb a.1.2 b.1.2 = true.
+#[global] Instance svc_id_le_dec a b : Decision (svc_id_le a b). Proof. unfold svc_id_le. apply _. Defined.
+Definition svcs_in_id_order (n : string) (s : st) : list (string * string * svc) :=
+  merge_sort svc_id_le (map_to_list (svcs_of_node n s)).
+
 (* deleteNodeTxn *)
 Definition delete_node (i : N) (n : string) (s : st) : steps :=
   match nodes s !! n with
   | None => []
   | Some _ =>
     seq i ((fun nm => PBumpSvc nm) <$> names_of (svcs_of_node n s)) (fun s1 =>
-    seq i (seq_all i (fun kv => delete_service i n kv.1.2) (map_to_list (svcs_of_node n s1)) s1) (fun s2 =>
+    seq i (seq_all i (fun kv => delete_service i n kv.1.2) (svcs_in_id_order n s1) s1) (fun s2 =>
     seq i (seq_all i (fun kv => delete_check i n kv.1.2) (map_to_list (checks_of_node n s2)) s2) (fun s3 =>
     seq i (match coords s3 !! n with Some _ => [PCoordDel n] | None => [] end) (fun s4 =>
     seq i [PNodeDel n] (fun s5 =>
